@@ -51,6 +51,10 @@ def run(tier, replay):
             V.violation("an unapproved host was written to the known-hosts file", loop)
         if not loop.get("approved_host_proceeds") or not loop.get("approved_file_has_entry"):
             V.violation("a host approved at the prompt was not trusted / not recorded", loop)
+        if loop.get("late_host_proceeds") is False:
+            V.violation("an unknown host that shows up 2.6 s after the client started (trust-all) is never dealt with: its dial hangs", loop)
+        if loop.get("keyfile_unknown_host_passes_unasked"):
+            V.violation("a client started with a private key file of its own accepts an unknown host key without asking", loop)
         nontriv = sum(1 for c in cases if len(c["proceed"]) < 2 or c["after"] != c["file"])
         cov = {"states": r.distinct, "transitions": r.generated, "traces_validated_against_impl": len(cases) + 2,
                "evaluations": res["evaluations"] + 2, "distinct_nontrivial": nontriv,
